@@ -216,12 +216,28 @@ func findFacesMakingPolygon(include func([2]bool) bool, start *faceRecord) map[*
 // orderPolygonRings reorders rings such that the outer (CCW) ring comes first,
 // and any inner (CW) rings are ordered afterwards in a stable way.
 func orderPolygonRings(rings []LineString) {
+	// There is exactly one CCW ring when the inputs are valid. For invalid
+	// inputs there can be several (or none), and the rings arrive in an order
+	// that depends on map iteration. Choose the least candidate rather than the
+	// first one found, so that the output (and any error that is later
+	// reported about it) is the same for every call.
+	outer := -1
 	for i, r := range rings {
-		if ccw := signedAreaOfLinearRing(r, nil) > 0; ccw {
-			rings[i], rings[0] = rings[0], rings[i]
-			break
+		if ccw := signedAreaOfLinearRing(r, nil) > 0; !ccw {
+			continue
+		}
+		if outer < 0 || r.Coordinates().less(rings[outer].Coordinates()) {
+			outer = i
 		}
 	}
+	if outer < 0 {
+		for i, r := range rings {
+			if outer < 0 || r.Coordinates().less(rings[outer].Coordinates()) {
+				outer = i
+			}
+		}
+	}
+	rings[outer], rings[0] = rings[0], rings[outer]
 	inners := rings[1:]
 	sort.Slice(inners, func(i, j int) bool {
 		seqI := inners[i].Coordinates()
